@@ -181,3 +181,25 @@ package webdoc
 //@   requires element != nil
 //@   fresh_assigns elems(string), maps, webdoc.ElementAction.*
 //@   ensures [C03] #inline-never-flushes implies(old(domutil.GetDisplayStyle(element)) == "inline" || old(domutil.GetDisplayStyle(element)) == "none", !result.Flush)
+
+// ---- TextBlock (C01: the filters only ever call these on non-nil blocks) ----
+
+//@ func (*TextBlock).MergeNext(other)
+//@   requires tb != nil && other != nil && inheap(tb.TextElements) && inheap(other.TextElements)
+//@   assigns webdoc.TextBlock.*, maps
+//@   assigns_rows tb.TextElements
+//@   fresh_assigns elems(ref), elems(string)
+//@   ensures inheap(tb.TextElements) && (samerow(tb.TextElements, old(tb.TextElements)) || freshslice(tb.TextElements))
+//@   ensures forall(x[*TextBlock], implies(x != tb, x.TextElements == old(x.TextElements)))
+//@   loop 0 invariant tb != nil && other != nil && inheap(tb.TextElements) && (samerow(tb.TextElements, old(tb.TextElements)) || freshslice(tb.TextElements))
+//@   loop 0 invariant forall(x[*TextBlock], implies(x != tb, x.TextElements == old(x.TextElements)))
+
+//@ func (*TextBlock).AddLabels(labels)
+//@   requires tb != nil
+//@   assigns webdoc.TextBlock.Labels, maps
+//@   loop 0 invariant tb != nil && tb.Labels != nil
+
+//@ func (*TextBlock).RemoveLabels(labels)
+//@   requires tb != nil
+//@   assigns webdoc.TextBlock.Labels, maps
+//@   loop 0 invariant tb != nil && tb.Labels != nil
